@@ -205,6 +205,28 @@ func c18Run(ce *cliEnv, work string, in c18Input) Record {
 		return rec
 	case "roundtrip":
 		return roundTrip(work, in)
+	case "clibig":
+		// a large value through the command (too large to ship to the kernel: compared here, byte for byte;
+		// the flag policy itself is the model's: --verbatim sends the input as it is, from a file or a pipe)
+		in.Verbatim = true
+		if in.S == nil {
+			in.S = classValue(NewRand(uint64(in.Size), 18), in.Class, in.Size)
+		}
+		sent, got, exitOK, nreq := ce.run(in)
+		n := len(in.S)
+		in.S = nil // keep the record small; the input is regenerated from class/size on replay
+		rec := Record{Kind: in.Kind, Input: in, Key: fmt.Sprintf("clibig:%s:%s:%d", in.Class, in.Source, n), Nontrivial: n > 1<<16,
+			Tags: []string{"cli-large-" + in.Source}, Obs: map[string]any{"bytes": n, "sent": sent, "exit_ok": exitOK, "received": len(got)}}
+		want := classValue(NewRand(uint64(n), 18), in.Class, n)
+		switch {
+		case !sent || !exitOK || nreq != 1:
+			rec.Direct = &DirectVerdict{OK: false, What: fmt.Sprintf("`setec put --verbatim` of %d bytes from a %s: sent=%v exit ok=%v requests=%d", n, in.Source, sent, exitOK, nreq)}
+		case !bytes.Equal(got, want):
+			rec.Direct = &DirectVerdict{OK: false, What: fmt.Sprintf("`setec put --verbatim` of %d bytes from a %s delivered %d bytes that differ from the input (first difference at %d)", n, in.Source, len(got), firstDiff(got, want))}
+		default:
+			rec.Direct = &DirectVerdict{OK: true, What: "delivered byte for byte"}
+		}
+		return rec
 	}
 	fatal("C18: unknown kind %q", in.Kind)
 	return Record{}
@@ -392,6 +414,27 @@ func roundTrip(work string, in c18Input) Record {
 	if x := same("GetVersion after restart", sv.Value); x != nil {
 		return *x
 	}
+	// the EMPTY value put right after the newest version was deleted must get a version of its own that
+	// really holds it (nothing to deduplicate against), on the live handle and after restart
+	if d3, err3 := db.Open(hs.env.path, hs.env.kek.inner, audit.New(io.Discard)); err3 == nil {
+		d3.Put(super, "y", []byte("one"))
+		v2, _ := d3.Put(super, "y", []byte("two"))
+		d3.DeleteVersion(super, "y", v2)
+		ve, perr := d3.Put(super, "y", []byte{})
+		if perr != nil {
+			return fail("put of the empty value after deleting the newest version: %v", perr)
+		}
+		d4, _ := db.Open(hs.env.path, hs.env.kek.inner, audit.New(io.Discard))
+		for _, h := range []*db.DB{d3, d4} {
+			if h == nil {
+				continue
+			}
+			sv, err = h.GetVersion(super, "y", ve)
+			if err != nil || len(sv.Value) != 0 {
+				return fail("the empty value put after deleting the newest version is not retrievable under the version the put returned (%d): %v", ve, err)
+			}
+		}
+	}
 	// the version whose input buffer was reused, and a value handed out and then overwritten by its reader
 	for _, h := range []*db.DB{hs.env.d, d2} {
 		sv, err = h.GetVersion(super, "x", vSide)
@@ -405,7 +448,7 @@ func roundTrip(work string, in c18Input) Record {
 		}
 	}
 	rec.Direct = &DirectVerdict{OK: true, What: "all paths byte-identical"}
-	rec.Obs = map[string]any{"bytes": len(val), "paths": 11}
+	rec.Obs = map[string]any{"bytes": len(val), "paths": 13}
 	return rec
 }
 
@@ -527,6 +570,18 @@ func runC18(o Opts) {
 				continue
 			}
 			out.Emit(c18Run(ce, work, c18Input{Kind: "roundtrip", Class: class, Size: sz}))
+		}
+	}
+	// large values through the command itself, from a file and from a pipe
+	big := []int{1 << 16, 1<<20 - 1, 1 << 20, 1<<20 + 1, 3<<20 + 7}
+	if thorough {
+		big = append(big, 16<<20+1)
+	}
+	for _, sz := range big {
+		for _, src := range []string{"file", "pipe"} {
+			for _, class := range []string{"binary", "ascii"} {
+				out.Emit(c18Run(ce, work, c18Input{Kind: "clibig", Class: class, Size: sz, Source: src}))
+			}
 		}
 	}
 	for _, rec := range self {
